@@ -174,12 +174,34 @@ class LazyWorld:
         cattrs = {q: dict(c.attrs) for q, c in I.classes.items()}
         mcache = {k: _cp(v, memo) for k, v in I.module_cache.items() if isinstance(v, (dict, list))}
         fvars = _cp(self.frame.vars, memo)
-        return heap, cattrs, mcache, fvars
+        # containers in the defining frames of closures that were installed on classes (a getter that keeps a dictionary of
+        # what it handed out in the frame of the function that defined it) are state too
+        self._cframes = getattr(self, "_cframes", {})
+        for c in I.classes.values():
+            for v in c.attrs.values():
+                for fn in ((v.fget, v.fset) if isinstance(v, PropertyVal) else (v,)):
+                    fn = getattr(fn, "fn", fn)
+                    f = getattr(fn, "frame", None) if isinstance(fn, Closure) else None
+                    while f is not None and f is not self.frame:
+                        self._cframes[id(f)] = f
+                        f = f.parent
+        cfr = {k: {n: _cp(x, memo) for n, x in f.vars.items() if isinstance(x, (dict, list))} for k, f in self._cframes.items()}
+        return heap, cattrs, mcache, fvars, cfr
 
     def restore(self, snap):
         I = self.I
-        heap, cattrs, mcache, fvars = snap
+        heap, cattrs, mcache, fvars, cfr = snap
         memo = {}
+        for k, f in getattr(self, "_cframes", {}).items():
+            if k in cfr:
+                f.vars.update({n: _cp(x, memo) for n, x in cfr[k].items()})
+            else:
+                # a frame first seen after this snapshot was taken: its containers were empty or did not exist then
+                for n, x in list(f.vars.items()):
+                    if isinstance(x, dict):
+                        f.vars[n] = {}
+                    elif isinstance(x, list):
+                        f.vars[n] = []
         I.heap = {k: _cp(v, memo) for k, v in heap.items()}
         for q, a in cattrs.items():
             I.classes[q].attrs = dict(a)
